@@ -467,7 +467,11 @@ class Mask:
     def __init__(self, x, rows):
         self.x, self.rows = x, [list(r) for r in rows]
         self.args = [x]
-    def coq(self, car): return "EMask (%s) %s" % (self.x.coq(car), nnlist(self.rows))
+    def coq(self, car):
+        # negative entries (counted from the end, as dense indexing does) are normalised for the model; the implementation gets them as they are
+        shp = [c.shape[1] for c in self.x.cores] if hasattr(self.x, "cores") else None
+        rows = [[(v + shp[k] if (v < 0 and shp is not None) else v) for k, v in enumerate(r)] for r in self.rows]
+        return "EMask (%s) %s" % (self.x.coq(car), nnlist(rows))
     def impl(self, env, dtype):
         torch, _ = _imp()
         return self.x.impl(env, dtype).apply_mask(torch.tensor(self.rows, dtype=torch.int64))
